@@ -1,0 +1,8 @@
+//go:build !verif
+
+package utils
+
+// Verification hooks (build tag "verif"). With the tag off these are empty and inlined away.
+
+func verifTrace(point, key string) {}
+func verifYield(point, key string) {}
